@@ -25,6 +25,23 @@ func (f *fnStub) SetNewGasConfig(_ *vmcommon.GasCost) {}
 func (f *fnStub) IsActive() bool                      { return true }
 func (f *fnStub) IsInterfaceNil() bool                { return f == nil }
 
+// boxed is a map value of a type that cannot be compared with == (it holds a slice): the map is a map
+// of interface{} values and must never compare them
+type boxed struct {
+	id  int64
+	pad []byte
+}
+
+func unbox(v interface{}) int64 {
+	switch x := v.(type) {
+	case int64:
+		return x
+	case boxed:
+		return x.id
+	}
+	return 0
+}
+
 // mapModel is the sequential specification of a map with Len/Keys/Values.
 func mapModel() porcupine.Model {
 	type st = map[string]int64
@@ -145,6 +162,15 @@ func runMap(seed int64, r *rand.Rand, stay int, replay []uint8, useContainer boo
 			nextVal++
 		}
 	}
+	// one MutexMap run in six stores values of an uncomparable type
+	boxedVals := !useContainer && r.Intn(6) == 0
+	box := func(v int64) interface{} {
+		if boxedVals {
+			return boxed{id: v}
+		}
+		return v
+	}
+	panics := make([]string, ntasks) // one slot per task: tasks share no harness state
 	mm := container.NewMutexMap()
 	fc := builtInFunctions.NewBuiltInFunctionContainer()
 	stubs := map[int64]*fnStub{}
@@ -177,7 +203,7 @@ func runMap(seed int64, r *rand.Rand, stay int, replay []uint8, useContainer boo
 			if useContainer {
 				_ = fc.Add(k, stubs[preVals[i]])
 			} else {
-				mm.Insert(k, preVals[i])
+				mm.Insert(k, box(preVals[i]))
 			}
 			// recorded as the first operations of the history (stamps before every stamp of the run)
 			pre = append(pre, porcupine.Operation{ClientId: ntasks + 1, Input: opIn{Op: "set", Key: k, Val: preVals[i]}, Call: int64(-1000 + 2*i), Output: opOut{}, Return: int64(-1000 + 2*i + 1)})
@@ -234,6 +260,12 @@ func runMap(seed int64, r *rand.Rand, stay int, replay []uint8, useContainer boo
 				in := p.in
 				var out opOut
 				call := simrt.Stamp()
+				func() {
+				defer func() {
+					if p := recover(); p != nil && panics[t] == "" {
+						panics[t] = fmt.Sprintf("task %d: %s(%s) panicked: %v", t, in.Op, in.Key, p)
+					}
+				}()
 				if useContainer {
 					switch in.Op {
 					case "get":
@@ -267,19 +299,19 @@ func runMap(seed int64, r *rand.Rand, stay int, replay []uint8, useContainer boo
 						v, ok := mm.Get(in.Key)
 						out.Ok = ok
 						if ok && v != nil {
-							out.Val = v.(int64)
+							out.Val = unbox(v)
 						}
 					case "insert":
 						if in.Val == 0 {
 							out.Ok = mm.Insert(in.Key, nil)
 						} else {
-							out.Ok = mm.Insert(in.Key, in.Val)
+							out.Ok = mm.Insert(in.Key, box(in.Val))
 						}
 					case "set":
 						if in.Val == 0 {
 							mm.Set(in.Key, nil)
 						} else {
-							mm.Set(in.Key, in.Val)
+							mm.Set(in.Key, box(in.Val))
 						}
 					case "remove":
 						mm.Remove(in.Key)
@@ -301,13 +333,14 @@ func runMap(seed int64, r *rand.Rand, stay int, replay []uint8, useContainer boo
 							if v == nil {
 								l = append(l, "0")
 							} else {
-								l = append(l, fmt.Sprint(v.(int64)))
+								l = append(l, fmt.Sprint(unbox(v)))
 							}
 						}
 						sort.Strings(l)
 						out.List = strings.Join(dropBulk(l, bulkVal), ",")
 					}
 				}
+				}()
 				ret := simrt.Stamp()
 				hist[t] = append(hist[t], porcupine.Operation{ClientId: t, Input: in, Call: call, Output: out, Return: ret})
 			}
@@ -332,6 +365,12 @@ func runMap(seed int64, r *rand.Rand, stay int, replay []uint8, useContainer boo
 		kind = "container"
 	}
 	rr := runResult{kind: kind, ops: len(ops), histories: 1, res: res, sample: describe(kind, ntasks, len(ops), stay)}
+	for _, p := range panics {
+		if p != "" {
+			rr.viol = append(rr.viol, Violation{Seed: seed, Kind: "panic-" + kind, Detail: p})
+			return rr
+		}
+	}
 	if msg, unknown := checkHistory(mapModel(), ops); unknown {
 		rr.unknown++
 	} else if msg != "" {
